@@ -13,6 +13,17 @@ def gen_cases(run, count, release=True):
         run.oblige("harness-run rt_run", False, out[-1500:]); return []
     return [json.loads(l) for l in out.splitlines() if l.startswith("{")]
 
+def gen_enum_cases(run, stride):
+    """Exhaustive small scope (rt_run enum mode): every stride-th case of the full enumeration, offset by the seed."""
+    ok, log, bins = C.harness_build(["rt_run"], release=True)
+    if not ok: return []
+    rc, out = C.sh("timeout 1200 %s %d %d '' enum" % (bins["rt_run"], run.seed, stride), timeout=1300)
+    if rc != 0:
+        run.oblige("harness-run rt_run enum", False, out[-800:]); return []
+    m = [l for l in out.splitlines() if l.startswith("enum:")]
+    run.extra["small_scope"] = (m[0] if m else "") + "; every %d-th case evaluated" % stride
+    return [json.loads(l) for l in out.splitlines() if l.startswith("{")]
+
 def case_term(c):
     return "(%s, %s, %s, %s, %s, %s)" % ("true" if c["host"] == "core" else "false", "true" if c.get("drained") else "false",
                                          c["prog"], c["handlers"], c["acts"], c["impl"])
@@ -23,7 +34,7 @@ def eval_cases(run, prop, cases, fn):
     through the matching legacy verdict function (model = Rt/Legacy.v)."""
     legacy = [c for c in cases if c["host"] == "legacy"]
     cases = [c for c in cases if c["host"] != "legacy"]
-    nsh = 16
+    nsh = max(16, (len(cases) + 2499) // 2500)      # at most ~2500 cases per coqc process (memory)
     shards = [s for s in (cases[i::nsh] for i in range(nsh)) if s]
     texts = [HEADER + "Definition cs : list rtcase := [\n" + ";\n".join(case_term(c) for c in sh) + "].\nEval vm_compute in (%s cs).\n" % fn for sh in shards]
     lfn = LEGACY_FN.get(fn, "verdicts_legacy_any") if fn != "fragment_flags" else None
@@ -40,7 +51,7 @@ def eval_cases(run, prop, cases, fn):
     return out
 
 RULES = {
- "C01": "programs of the task/command language (coq/Rt/Lang.v) generated from the seed: depth 0-4 combinator trees over tasks with emit/notify/request/stream-loop/spawn/join/abort-task/self-wake; one third run under a real Core with a handler table (events trigger further commands), a Noop probe after every call in half of those; schedule chosen while the implementation runs (resolve live/late/repeated, drop, abort, events). Non-trivial = the case contains at least one request, stream, spawn or nested command (size >= 4) - counted distinct by (program, schedule).",
+ "C01": "(a) seeded random: programs of the task/command language (coq/Rt/Lang.v) generated from the seed: depth 0-4 combinator trees over tasks with emit/notify/request/stream-loop/spawn/join/abort-task/self-wake; one third run under a real Core with a handler table (events trigger further commands), a Noop probe after every call in half of those; schedule chosen while the implementation runs (resolve live/late/repeated, drop, abort, events). Non-trivial = the case contains at least one request, stream, spawn or nested command (size >= 4) - counted distinct by (program, schedule). (b) exhaustive small scope: every stride-th case (stride 400 quick / 8 thorough / VERIF_ENUM_STRIDE=1 for all) of ALL commands built from tasks of <= 2 statements over 23 statement forms, an optional extra task and 5 wrappers (5065 commands) x ALL input sequences of length <= 3 over {resolve oldest, resolve newest, drop oldest, abort, spawn from outside} (156 schedules).",
 }
 def nontrivial(c):
     return c["size"] >= 4 and any(k in c["acts"] for k in ("AResolve", "ADropReq", "AAbort"))
@@ -49,6 +60,8 @@ def check_generic(run, prop, fn, only_host=None, replay=None):
     C.proof_stage(run, prop)
     count = 3000 if run.tier == "quick" else 60000
     cases = gen_cases(run, count)
+    stride = int(os.environ.get("VERIF_ENUM_STRIDE", "400" if run.tier == "quick" else "8"))
+    cases += gen_enum_cases(run, stride)
     if replay:
         cases = json.load(open(replay)).get("cases", cases)
     res = eval_cases(run, prop, cases, fn)
@@ -65,7 +78,7 @@ def check_generic(run, prop, fn, only_host=None, replay=None):
         elif v == 3: v3.append(c)
     key = lambda c: c["size"] + len(c["acts"])
     v1.sort(key=key); v2.sort(key=key)
-    slim = lambda c: {k: c[k] for k in ("idx", "seed", "host", "prog", "handlers", "acts", "impl", "drained")}
+    slim = lambda c: {k: c.get(k) for k in ("idx", "seed", "host", "prog", "handlers", "acts", "impl", "drained", "enum")}
     run.oblige("correspondence: runtime model trace = implementation trace on %d cases" % len(res), not v1 and len(res) == len(cases),
                json.dumps([slim(c) for c in v1[:3]]))
     run.oblige("%s_ok holds of every implementation trace" % prop, not v2, json.dumps([slim(c) for c in v2[:3]]))
